@@ -960,6 +960,8 @@ func propC05(r *Run, w *World) {
 		r.Check(n == 1, "one 'error' store", fn.Pos(), "", fmt.Sprintf("%d", n))
 		undo()
 	}
+	r.Rule("C05.R5", "no String/Error method of the repository formats its own receiver under a verb that calls the method again: Data() renders architectures and record types through such methods, and unbounded recursion is a fatal stack overflow", 5)
+	noRecursiveFormat(r, w)
 }
 
 func firstLits(p *Path, n int) string {
